@@ -1,9 +1,509 @@
-// C04: not built yet (stub so that main.rs is already wired; replace the body, keep the two signatures).
-use crate::util::Sink;
+// C04: PWB packet reassembly — case generation and implementation observations.
+//   c4reasm <chunk hex>,<chunk hex>,...   every chunk through Chunk::try_from, then PwbV2Packet::try_from(Vec<Chunk>)
+//       observation: `reasm-err` when reassembly fails with any variant other than BadPayload (a structural check),
+//       else `concat <hex>`: the payloads in chunk-id order (concatenated by the harness);  `chunk-err` when a
+//       chunk does not decode.  The model prints the bytes its reassembly hands to the payload decoder.
+//   rel4valid <payload hex>               the payload builder's output is accepted by PwbV2Packet::try_from(&[u8])
+//   rel4orders <chunk hex>,...            implementation-only oracle: every arrival order gives the same result
+//       (packet, or error kind and position), success equals the direct decode of the id-ordered concatenation,
+//       and PwbPacket::try_from agrees with PwbV2Packet::try_from.
+use crate::c03::{devices, pad_of, Fields};
+use crate::util::*;
+use alpha_g_detector::padwing::{
+    BoardId, Chunk, PwbPacket, PwbV2Packet, TryPwbPacketFromChunksError as RE,
+};
 
-pub fn run(_tier: &str, _seed: u64, _s: &mut Sink) {}
+fn parse_chunks(rest: &str) -> Option<Vec<Chunk>> {
+    if rest == "-" {
+        return Some(Vec::new());
+    }
+    let mut v = Vec::new();
+    for h in rest.split(',') {
+        match Chunk::try_from(&unhex(h)[..]) {
+            Ok(c) => v.push(c),
+            Err(_) => return None,
+        }
+    }
+    Some(v)
+}
+
+fn concat_by_id(chunks: &[Chunk]) -> Vec<u8> {
+    let mut idx: Vec<usize> = (0..chunks.len()).collect();
+    idx.sort_by_key(|&i| chunks[i].chunk_id());
+    let mut out = Vec::new();
+    for i in idx {
+        out.extend_from_slice(chunks[i].payload());
+    }
+    out
+}
+
+pub fn observe(rest: &str) -> String {
+    let Some(chunks) = parse_chunks(rest) else {
+        return "chunk-err".to_string();
+    };
+    let cat = concat_by_id(&chunks);
+    match catch(move || PwbV2Packet::try_from(chunks)) {
+        None => "panic".to_string(),
+        Some(Ok(_)) | Some(Err(RE::BadPayload(_))) => format!("concat {}", hex(&cat)),
+        Some(Err(_)) => "reasm-err".to_string(),
+    }
+}
+
+/// result class compared across orders: packet, or error kind and position (found/expected dropped)
+fn outcome(chunks: Vec<Chunk>) -> String {
+    match catch(move || PwbV2Packet::try_from(chunks)) {
+        None => "panic".to_string(),
+        Some(Ok(p)) => format!("ok {:?}", p),
+        Some(Err(e)) => match e {
+            RE::DeviceIdMismatch { .. } => "err device".to_string(),
+            RE::ChannelIdMismatch { .. } => "err chip".to_string(),
+            RE::MissingChunk { position } => format!("err missing {position}"),
+            RE::MissingEndOfMessageChunk => "err no-eom".to_string(),
+            RE::MisplacedEndOfMessageChunk { position } => format!("err eom-early {position}"),
+            RE::PayloadLengthMismatch { .. } => "err length".to_string(),
+            RE::BadPayload(inner) => format!("err payload {:?}", inner),
+        },
+    }
+}
+
+fn next_permutation(a: &mut [usize]) -> bool {
+    let n = a.len();
+    if n < 2 {
+        return false;
+    }
+    let mut i = n - 1;
+    while i > 0 && a[i - 1] >= a[i] {
+        i -= 1;
+    }
+    if i == 0 {
+        return false;
+    }
+    let mut j = n - 1;
+    while a[j] <= a[i - 1] {
+        j -= 1;
+    }
+    a.swap(i - 1, j);
+    a[i..].reverse();
+    true
+}
+fn shuffle(r: &mut Rng, a: &mut [usize]) {
+    for i in (1..a.len()).rev() {
+        let j = r.below(i as u64 + 1) as usize;
+        a.swap(i, j);
+    }
+}
+
+pub fn relation(rest: &str) -> String {
+    let Some(chunks) = parse_chunks(rest) else {
+        return "holds".to_string(); // not a chunk list: nothing to relate
+    };
+    let n = chunks.len();
+    let reference = outcome(chunks.clone());
+    // success (or payload error) equals the direct decode of the id-ordered concatenation
+    let cat = concat_by_id(&chunks);
+    let direct = catch(|| PwbV2Packet::try_from(&cat[..]));
+    match &direct {
+        None => return "fails direct-decode-panics".to_string(),
+        Some(Ok(p)) => {
+            if reference.starts_with("ok ") && reference != format!("ok {:?}", p) {
+                return "fails packet-differs-from-direct-decode".to_string();
+            }
+        }
+        Some(Err(e)) => {
+            if reference.starts_with("ok ") {
+                return "fails reassembled-but-direct-decode-fails".to_string();
+            }
+            if reference.starts_with("err payload") && reference != format!("err payload {:?}", e) {
+                return "fails payload-error-differs-from-direct-decode".to_string();
+            }
+        }
+    }
+    // the enum wrapper agrees
+    let w = catch({
+        let c = chunks.clone();
+        move || PwbPacket::try_from(c)
+    });
+    match w {
+        None => return "fails wrapper-panics".to_string(),
+        Some(Ok(PwbPacket::V2(p))) => {
+            if reference != format!("ok {:?}", p) {
+                return "fails wrapper-differs".to_string();
+            }
+        }
+        Some(Err(_)) => {
+            if reference.starts_with("ok ") {
+                return "fails wrapper-differs".to_string();
+            }
+        }
+    }
+    // all orders: exhaustively up to 6 chunks, 60 pseudo-random ones beyond (seeded by the case itself)
+    let mut idx: Vec<usize> = (0..n).collect();
+    let check = |idx: &[usize]| -> Option<String> {
+        let perm: Vec<Chunk> = idx.iter().map(|&i| chunks[i].clone()).collect();
+        let o = outcome(perm);
+        if o != reference {
+            Some(format!("fails order {:?} gives {} instead of {}", idx, &o[..o.len().min(60)], &reference[..reference.len().min(60)]))
+        } else {
+            None
+        }
+    };
+    if n <= 6 {
+        loop {
+            if let Some(f) = check(&idx) {
+                return f;
+            }
+            if !next_permutation(&mut idx) {
+                break;
+            }
+        }
+    } else {
+        let mut r = Rng::new(rest.len() as u64 ^ 0xC04);
+        idx.reverse();
+        if let Some(f) = check(&idx) {
+            return f;
+        }
+        for _ in 0..60 {
+            shuffle(&mut r, &mut idx);
+            if let Some(f) = check(&idx) {
+                return f;
+            }
+        }
+    }
+    "holds".to_string()
+}
+
+fn valid_payload(h: &str) -> String {
+    let b = unhex(h);
+    match catch(move || PwbV2Packet::try_from(&b[..]).is_ok()) {
+        Some(true) => "holds".to_string(),
+        Some(false) => "fails builder-payload-refused".to_string(),
+        None => "fails direct-decode-panics".to_string(),
+    }
+}
+
+// ---------------------------------------------------------------------------------------------
+// builders
+
+/// a valid PWB v2 packet payload (layout of PwbV2Packet::try_from(&[u8]))
+pub fn pwb_payload(r: &mut Rng, n_channels: usize, samples: usize) -> Vec<u8> {
+    let names: Vec<String> = (0..100).map(|i| format!("{:02}", i)).collect();
+    let boards: Vec<BoardId> = names.iter().filter_map(|n| BoardId::try_from(n.as_str()).ok()).collect();
+    let board = r.pick(&boards);
+    let mut v = vec![2u8, b"ABCD"[r.below(4) as usize], 0, r.pick(&[0u8, 1, 3])];
+    v.extend(board.mac_address());
+    v.extend((r.boundary(0xFFFF) as u16).to_le_bytes());
+    let ts = r.boundary((1u64 << 48) - 1);
+    v.extend(ts.to_le_bytes());
+    v.extend((r.boundary(511) as u16).to_le_bytes());
+    v.extend((samples as u16).to_le_bytes());
+    // channels sent: n_channels distinct bits among 79
+    let mut bits: Vec<usize> = (0..79).collect();
+    shuffle(r, &mut bits);
+    let mut sent: Vec<usize> = bits[..n_channels.min(79)].to_vec();
+    sent.sort();
+    let mut mask = 0u128;
+    for &b in &sent {
+        mask |= 1 << b;
+    }
+    v.extend(&mask.to_le_bytes()[..10]);
+    let thr = (r.next() as u128 | ((r.next() as u128) << 64)) & ((1u128 << 79) - 1);
+    v.extend(&thr.to_le_bytes()[..10]);
+    v.extend((r.next() as u32).to_le_bytes());
+    v.extend((r.next() as u16).to_le_bytes());
+    v.push(r.next() as u8);
+    v.push(r.next() as u8);
+    for &b in &sent {
+        v.extend((b as u16 + 1).to_le_bytes());
+        v.extend((samples as u16).to_le_bytes());
+        for _ in 0..samples {
+            v.extend((r.range(0, 4095) as i16 - 2048).to_le_bytes());
+        }
+        if samples % 2 == 1 {
+            v.extend([0u8, 0]);
+        }
+    }
+    v.extend([0xCCu8; 4]);
+    v
+}
+
+#[derive(Clone)]
+pub struct Msg {
+    pub chunks: Vec<Fields>,
+}
+impl Msg {
+    pub fn line(&self, order: &[usize]) -> String {
+        if order.is_empty() {
+            return "-".to_string();
+        }
+        order.iter().map(|&i| hex(&self.chunks[i].bytes())).collect::<Vec<_>>().join(",")
+    }
+    pub fn natural(&self) -> Vec<usize> {
+        (0..self.chunks.len()).collect()
+    }
+}
+fn mk_chunk(dev: u32, chan: u8, pseq: u32, cseq: u16, id: u16, eom: bool, payload: &[u8]) -> Fields {
+    let mut body = payload.to_vec();
+    body.resize(payload.len() + pad_of(payload.len()), 0);
+    Fields { dev, pseq, cseq, chan, flags: eom as u8, id, clen: payload.len() as u16, body }
+}
+/// split a payload into chunks of `size` bytes (the last one takes the rest)
+pub fn split(r: &mut Rng, devs: &[u32], payload: &[u8], size: usize) -> Msg {
+    let dev = r.pick(devs);
+    let chan = r.below(4) as u8;
+    let pseq = r.boundary(u32::MAX as u64) as u32;
+    let cseq = r.boundary(u16::MAX as u64) as u16;
+    let parts: Vec<&[u8]> = payload.chunks(size).collect();
+    let n = parts.len();
+    let chunks = parts
+        .iter()
+        .enumerate()
+        .map(|(i, p)| mk_chunk(dev, chan, pseq.wrapping_add(i as u32), cseq.wrapping_add(i as u16), i as u16, i + 1 == n, p))
+        .collect();
+    Msg { chunks }
+}
+
+fn emit(s: &mut Sink, label: &str, line: &str) {
+    let o = observe(line);
+    s.put(&format!("c4reasm {line}"), &o, label, o != "chunk-err" && line != "-");
+}
+fn emit_rel(s: &mut Sink, label: &str, line: &str) {
+    s.put(&format!("rel4orders {line}"), &relation(line), label, true);
+}
+/// a case in three arrival orders (natural, reversed, random) + the all-orders oracle
+fn emit_orders(s: &mut Sink, r: &mut Rng, label: &str, m: &Msg, with_rel: bool) {
+    let mut o = m.natural();
+    emit(s, label, &m.line(&o));
+    if o.len() > 1 {
+        o.reverse();
+        emit(s, label, &m.line(&o));
+        shuffle(r, &mut o);
+        emit(s, label, &m.line(&o));
+    }
+    if with_rel {
+        emit_rel(s, &format!("rel-{label}"), &m.line(&m.natural()));
+    }
+}
+
+/// every single fault of the property text applied to a well-formed message
+fn faults(s: &mut Sink, r: &mut Rng, devs: &[u32], m: &Msg, rel: bool) {
+    let n = m.chunks.len();
+    let positions: Vec<usize> = if n <= 8 { (0..n).collect() } else { vec![0, 1, n / 2, n - 2, n - 1] };
+    for &i in &positions {
+        // drop chunk i
+        let mut f = m.clone();
+        f.chunks.remove(i);
+        emit_orders(s, r, "fault-drop", &f, rel);
+        // duplicate chunk i (exact copy, and a copy with another payload of the same size)
+        let mut f = m.clone();
+        f.chunks.push(m.chunks[i].clone());
+        emit_orders(s, r, "fault-duplicate", &f, rel);
+        let mut f = m.clone();
+        let mut c = m.chunks[i].clone();
+        for b in c.body.iter_mut().take(c.clen as usize) {
+            *b ^= 0x5A;
+        }
+        f.chunks.insert(r.below(n as u64 + 1) as usize, c);
+        emit_orders(s, r, "fault-duplicate-other-payload", &f, rel);
+        // chunk of another board / another chip swapped in
+        let mut f = m.clone();
+        f.chunks[i].dev = *devs.iter().find(|&&d| d != m.chunks[i].dev).unwrap();
+        emit_orders(s, r, "fault-other-board", &f, rel);
+        let mut f = m.clone();
+        f.chunks[i].chan = (m.chunks[i].chan + 1 + r.below(3) as u8) % 4;
+        emit_orders(s, r, "fault-other-chip", &f, rel);
+        // end-of-message flag toggled
+        let mut f = m.clone();
+        f.chunks[i].flags ^= 1;
+        emit_orders(s, r, "fault-eom-toggle", &f, rel);
+        // chunk resized by one byte (shorter / longer); for the final chunk this is not a fault of the set
+        for delta in [-1i32, 1] {
+            let mut f = m.clone();
+            let c = &mut f.chunks[i];
+            let mut p: Vec<u8> = c.body[..c.clen as usize].to_vec();
+            if delta < 0 {
+                p.pop();
+            } else {
+                p.push(0x77);
+            }
+            if !p.is_empty() {
+                *c = mk_chunk(c.dev, c.chan, c.pseq, c.cseq, c.id, c.flags == 1, &p);
+                emit_orders(s, r, if i + 1 == n { "final-chunk-resized" } else { "fault-resize" }, &f, rel);
+            }
+        }
+        // chunk id changed: to another present id, to n, to a far value with one bit set
+        for new_id in [((i + 1) % n) as u16, n as u16, 1u16 << r.below(16), u16::MAX] {
+            if new_id as usize != i {
+                let mut f = m.clone();
+                f.chunks[i].id = new_id;
+                emit_orders(s, r, "fault-id-changed", &f, rel);
+            }
+        }
+    }
+    // every single bit of the id of one chunk flipped (ids aliasing modulo 2^k must not be accepted)
+    for &i in &[0usize, n / 2, n - 1] {
+        for k in 0..16 {
+            let mut f = m.clone();
+            f.chunks[i].id ^= 1 << k;
+            let o = f.natural();
+            emit(s, "fault-id-bit", &f.line(&o));
+        }
+    }
+    // ids shifted by one (no id 0), end-of-message on every chunk / on none
+    let mut f = m.clone();
+    for c in f.chunks.iter_mut() {
+        c.id += 1;
+    }
+    emit_orders(s, r, "fault-ids-from-1", &f, rel);
+    let mut f = m.clone();
+    for c in f.chunks.iter_mut() {
+        c.flags = 1;
+    }
+    emit_orders(s, r, if n == 1 { "valid" } else { "fault-eom-everywhere" }, &f, rel);
+    let mut f = m.clone();
+    for c in f.chunks.iter_mut() {
+        c.flags = 0;
+    }
+    emit_orders(s, r, "fault-eom-nowhere", &f, rel);
+    // two complete messages mixed (same board and chip): every id twice
+    let mut f = m.clone();
+    f.chunks.extend(m.chunks.iter().cloned());
+    emit_orders(s, r, "fault-two-messages", &f, rel);
+}
+
+pub fn run(tier: &str, seed: u64, s: &mut Sink) {
+    let mut r = Rng::new(seed ^ 0xC04);
+    let thorough = tier == "thorough";
+    let devs = devices();
+    emit(s, "empty", "-");
+    emit_rel(s, "rel-empty", "-");
+
+    // ---- valid packets split at every chunk-size class, a few arrival orders each
+    let shapes: Vec<(usize, usize)> = if thorough {
+        vec![(0, 0), (1, 0), (1, 1), (2, 3), (3, 8), (5, 16), (7, 31), (79, 2), (12, 64), (4, 511)]
+    } else {
+        vec![(0, 0), (1, 1), (2, 3), (3, 8), (6, 17)]
+    };
+    for &(nch, ns) in &shapes {
+        let p = pwb_payload(&mut r, nch, ns);
+        let l = p.len();
+        // the builder must produce payloads the implementation accepts (else the success path is not exercised)
+        s.put(&format!("rel4valid {}", hex(&p)), &valid_payload(&hex(&p)), "rel-builder-accepted", true);
+        let mut sizes = vec![1usize, 2, 3, 4, 5, 7, 8, 51, 52, 53, 55, 56, 57, 63, 64, 65, 255, 256, 1023, 1024, 65535];
+        sizes.extend([l.saturating_sub(1).max(1), l, l + 1, l / 2, l / 2 + 1, (l + 2) / 3]);
+        sizes.sort();
+        sizes.dedup();
+        for &k in &sizes {
+            if k == 0 || k > 65535 {
+                continue;
+            }
+            let m = split(&mut r, &devs, &p, k);
+            let n = m.chunks.len();
+            if n > 400 && !thorough {
+                continue;
+            }
+            emit_orders(s, &mut r, "valid-split", &m, n <= 6 || k % 2 == 1);
+        }
+    }
+    // ---- all permutations: differential on every order up to 4 (6 in thorough) chunks
+    let max_all = if thorough { 6 } else { 5 };
+    for n in 1..=6usize {
+        let reps = if thorough { 40 } else { 1 };
+        for _ in 0..reps {
+            let (a, b) = (1 + r.below(3) as usize, r.below(6) as usize);
+            let p = pwb_payload(&mut r, a, b);
+            let k = (p.len() + n - 1) / n;
+            let m = split(&mut r, &devs, &p, k);
+            if m.chunks.len() != n {
+                continue;
+            }
+            emit_rel(s, "rel-valid-all-orders", &m.line(&m.natural()));
+            let mut idx = m.natural();
+            if n <= max_all {
+                loop {
+                    emit(s, "valid-all-orders", &m.line(&idx));
+                    if !next_permutation(&mut idx) {
+                        break;
+                    }
+                }
+            } else {
+                for _ in 0..30 {
+                    shuffle(&mut r, &mut idx);
+                    emit(s, "valid-random-orders", &m.line(&idx));
+                }
+            }
+        }
+    }
+    // ---- random (undecodable) payload bytes: structure accepted, payload refused
+    for &(l, k) in &[(1usize, 1usize), (2, 1), (7, 3), (56, 8), (100, 33), (300, 1), (513, 2), (1000, 256)] {
+        let p = r.bytes(l);
+        let m = split(&mut r, &devs, &p, k);
+        emit_orders(s, &mut r, "random-payload", &m, true);
+    }
+    // the final chunk longer than the others, shorter, equal
+    for last in [1usize, 4, 5, 9, 40] {
+        let body = r.bytes(15);
+        let mut m = split(&mut r, &devs, &body, 5);
+        let c = m.chunks.last().unwrap().clone();
+        let tail = r.bytes(last);
+        *m.chunks.last_mut().unwrap() = mk_chunk(c.dev, c.chan, c.pseq, c.cseq, c.id, true, &tail);
+        emit_orders(s, &mut r, "final-chunk-size", &m, true);
+    }
+    // ---- every single fault, on messages of 1..6 chunks and one of many chunks
+    for rep in 0..if thorough { 6 } else { 1 } {
+        for n in 1..=6usize {
+            let p = pwb_payload(&mut r, 2 + rep, 4 + rep);
+            let k = (p.len() + n - 1) / n;
+            let m = split(&mut r, &devs, &p, k);
+            faults(s, &mut r, &devs, &m, true);
+        }
+    }
+    {
+        let p = pwb_payload(&mut r, 3, 6);
+        let m = split(&mut r, &devs, &p, 3);
+        faults(s, &mut r, &devs, &m, thorough);
+    }
+    // ---- large: two chunks at the maximal chunk size (a full 79-channel packet), many chunk ids
+    let big = pwb_payload(&mut r, 79, 511);
+    for &k in &[65535usize, 65534, 40962] {
+        if k == 65535 || thorough {
+            let m = split(&mut r, &devs, &big, k);
+            emit_orders(s, &mut r, "valid-split-max-chunk", &m, true);
+        }
+    }
+    {
+        // chunk ids with every bit up to 2^11 set: 4100 one-byte chunks (sorted, reversed in blocks, shuffled)
+        let n = if thorough { 4100 } else { 1030 };
+        let body = r.bytes(n);
+        let m = split(&mut r, &devs, &body, 1);
+        let mut idx = m.natural();
+        emit(s, "many-chunks", &m.line(&idx));
+        shuffle(&mut r, &mut idx);
+        emit(s, "many-chunks", &m.line(&idx));
+        emit_rel(s, "rel-many-chunks", &m.line(&idx));
+        let mut f = m.clone();
+        f.chunks.remove(n / 2);
+        emit(s, "many-chunks-drop", &f.line(&f.natural()));
+        let mut f = m.clone();
+        f.chunks[n - 1].id = 1 << 12;
+        emit(s, "many-chunks-id-bit", &f.line(&f.natural()));
+    }
+    // a chunk that does not decode inside the list
+    {
+        let body = r.bytes(9);
+        let m = split(&mut r, &devs, &body, 3);
+        let mut parts: Vec<String> = m.chunks.iter().map(|c| hex(&c.bytes())).collect();
+        parts[1] = format!("{}00", &parts[1][..parts[1].len() - 2]);
+        emit(s, "undecodable-chunk", &parts.join(","));
+    }
+}
 
 /// implementation observation for a case line of this module (None: not one of mine)
-pub fn observe_line(_line: &str) -> Option<String> {
-    None
+pub fn observe_line(line: &str) -> Option<String> {
+    let (tag, rest) = line.split_once(' ').unwrap_or((line, "-"));
+    match tag {
+        "c4reasm" => Some(observe(rest)),
+        "rel4orders" => Some(relation(rest)),
+        "rel4valid" => Some(valid_payload(rest)),
+        _ => None,
+    }
 }
